@@ -13,6 +13,7 @@ import (
 	"strings"
 
 	"github.com/wader/fq/internal/verifharness/hlib"
+	"github.com/wader/fq/pkg/interp"
 )
 
 // refEncode is used only to manufacture well-formed texts that the generator then damages.
@@ -331,6 +332,14 @@ func knownLawFailure(name string, x any) string {
 }
 
 func runLaw(o *hlib.Out, ev *evaluator, name string, xs []any) {
+	if strings.HasPrefix(name, "held:") {
+		runHeld(o, ev, strings.TrimPrefix(name, "held:"), xs)
+		return
+	}
+	if strings.HasPrefix(name, "opt:") {
+		runOpt(o, ev, strings.TrimPrefix(name, "opt:"), xs)
+		return
+	}
 	if strings.HasPrefix(name, "immut:") {
 		runImmut(o, ev, strings.TrimPrefix(name, "immut:"), xs)
 		return
@@ -496,6 +505,259 @@ func immutShaped() []any {
 		map[string]any{"a": []any{1, nil, map[string]any{"b": []any{nil}}}, "n": nil, "i": -7},
 		map[string]any{"t": map[string]any{"x": 1, "y": []any{1, 2}}, "arr": []any{map[string]any{"k": 1}, map[string]any{"k": 2}}},
 	}
+}
+
+// ---------------------------------------------------------------------------------------------
+// HELD RESULTS: the property is about values, so a result must not change after it has been
+// returned.  k >= 2 values are encoded in ONE evaluation and only then used:
+//     xs | map(to_F) | map(from_F) == xs              (the round-trip law itself, on held results)
+//     xs | map(to_F) | map(to_hex) == xs | map(to_F | to_hex)   (a held result still has its bytes)
+//     (xs[0]|to_F) as $a | (xs[-1]|to_F) as $b | [$a,$b] | map(from_F) == [xs[0], xs[-1]]
+// (seeded change S3-C14-2: an encoder that hands out a pooled buffer is overwritten by the next call)
+
+type heldDef struct {
+	to, from string // from == "" : digest, only the "still has its bytes" law
+}
+
+var heldDefs = map[string]heldDef{
+	"hex": {"to_hex", "from_hex"}, "b64std": {"to_base64", "from_base64"},
+	"b64url":    {`to_base64({encoding:"url"})`, `from_base64({encoding:"url"})`},
+	"b64rawstd": {`to_base64({encoding:"rawstd"})`, `from_base64({encoding:"rawstd"})`},
+	"b64rawurl": {`to_base64({encoding:"rawurl"})`, `from_base64({encoding:"rawurl"})`},
+	"urlq":      {"to_urlencode", "from_urlencode"}, "urlp": {"to_urlpath", "from_urlpath"},
+	"latin1": {"to_iso8859_1", "from_iso8859_1"}, "utf8": {"to_utf8", "from_utf8"},
+	"utf16": {"to_utf16", "from_utf16"}, "utf16le": {"to_utf16le", "from_utf16le"}, "utf16be": {"to_utf16be", "from_utf16be"},
+	"radix": {"to_radix(36)", "from_radix(36)"},
+	"json":  {"tojson", "fromjson | tovalue"}, "jqlit": {"to_jq", "from_jq"},
+	"yaml": {"to_yaml", "from_yaml | tovalue"}, "toml": {"to_toml", "from_toml | tovalue"},
+	"xml": {"to_xml", "from_xml({array: true}) | tovalue"}, "csv": {"to_csv", "from_csv | tovalue"},
+	"urlquery": {"to_urlquery", "from_urlquery"},
+	"md4":      {"to_md4", ""}, "md5": {"to_md5", ""}, "sha1": {"to_sha1", ""}, "sha256": {"to_sha256", ""}, "sha512": {"to_sha512", ""},
+	"sha3_256": {"to_sha3_256", ""},
+}
+
+func heldNames() []string {
+	ns := make([]string, 0, len(heldDefs))
+	for n := range heldDefs {
+		ns = append(ns, n)
+	}
+	sort.Strings(ns)
+	return ns
+}
+
+// bytesOfValue: a binary or a string as bytes (from_hex gives a binary, the input was a string)
+func bytesLike(v any) (string, bool) {
+	switch v := v.(type) {
+	case string:
+		return v, true
+	case interp.Binary:
+		h := obsOf(v)
+		if strings.ContainsAny(h, "?/") {
+			return "", false
+		}
+		return string(hlib.UnHex(h)), true
+	}
+	return "", false
+}
+
+func heldEqual(got, want any) bool {
+	if gb, ok := bytesLike(got); ok {
+		if wb, ok2 := want.(string); ok2 {
+			return gb == wb
+		}
+	}
+	return jqEqual(got, want)
+}
+
+// each x is an ARRAY of >= 2 inputs of the codec's domain
+func runHeld(o *hlib.Out, ev *evaluator, name string, xs []any) {
+	d, ok := heldDefs[name]
+	if !ok {
+		o.Verdict("BADOP", "law held:"+name)
+		return
+	}
+	ops := make([]string, len(xs))
+	for i, x := range xs {
+		ops[i] = fmt.Sprintf("law held:%s %s", name, wireOf(x))
+	}
+	from := d.from
+	if from == "" {
+		from = "to_hex"
+	}
+	expr := fmt.Sprintf(`. as $xs | try [($xs | map(%[1]s) | map(%[2]s)), ($xs | map(%[1]s) | map(to_hex)), ($xs | map(%[1]s | to_hex)), `+
+		`(($xs[0] | %[1]s) as $a | ($xs[-1] | %[1]s) as $b | [$a, $b] | map(%[2]s))] catch {__err: (. | tostring)}`, d.to, from)
+	res := ev.run(expr, xs)
+	for i := range xs {
+		o.Stat("law_held", 1)
+		x := parseWire(strings.Fields(ops[i])[2]).([]any)
+		fail := ""
+		switch r := res[i].(type) {
+		case []any:
+			if len(r) != 4 {
+				fail = fmt.Sprintf("outputs=%d", len(r))
+				break
+			}
+			a, _ := r[0].([]any)
+			b, _ := r[1].([]any)
+			c, _ := r[2].([]any)
+			e, _ := r[3].([]any)
+			if len(a) != len(x) || len(b) != len(x) || len(c) != len(x) || len(e) != 2 {
+				fail = "result-count"
+				break
+			}
+			for j := range x {
+				if !jqEqual(b[j], c[j]) {
+					fail = fmt.Sprintf("held-result-changed index=%d map(%s)|map(to_hex)=%v but %s|to_hex=%v", j, d.to, b[j], d.to, c[j])
+					break
+				}
+			}
+			if fail == "" && d.from != "" {
+				for j := range x {
+					if !heldEqual(a[j], x[j]) {
+						fail = fmt.Sprintf("map(%s)|map(%s) index=%d got=%s", d.to, d.from, j, wireOf(a[j]))
+						break
+					}
+				}
+				if fail == "" && (!heldEqual(e[0], x[0]) || !heldEqual(e[1], x[len(x)-1])) {
+					fail = "results-held-in-variables got=" + wireOf(e)
+				}
+			}
+		case map[string]any:
+			fail = fmt.Sprintf("err:%v", r["__err"])
+		case panicMark:
+			fail = "panic"
+		case timeoutMark:
+			fail = "timeout"
+		default:
+			fail = fmt.Sprintf("?%T", r)
+		}
+		if fail == "" {
+			o.Verdict("OK", ops[i])
+			o.Class(ops[i])
+			continue
+		}
+		if len(fail) > 300 {
+			fail = fail[:300] + "…"
+		}
+		// the known classes of the single-value laws apply to each held value
+		key := ""
+		for _, e := range x {
+			if k := knownLawFailure(name, e); k != "" {
+				key = k
+				break
+			}
+		}
+		if key != "" {
+			o.Verdict("KNOWN", key+" "+ops[i]+" got="+fail)
+		} else {
+			o.Verdict("PROPFAIL", ops[i]+" got="+fail)
+		}
+	}
+}
+
+// ---------------------------------------------------------------------------------------------
+// OPTIONS: a codec pair that takes options must round-trip — or fail cleanly — when BOTH sides are
+// given the same options:  x | to_F($o) | from_F($o) == x  or an error, never another value.
+// (seeded change S3-C14-1: to_csv and from_csv read the `comma` option differently)
+
+type optDef struct {
+	to, from string // jq, with $o bound to the options object
+}
+
+var optDefs = map[string]optDef{
+	"csv":    {"to_csv($o)", "from_csv($o) | tovalue"},
+	"json":   {"tojson($o)", "fromjson | tovalue"},
+	"jq":     {"to_jq($o)", "from_jq"},
+	"yaml":   {"to_yaml($o)", "from_yaml | tovalue"},
+	"toml":   {"to_toml($o)", "from_toml | tovalue"},
+	"xmlarr": {"to_xml($o)", "from_xml({array: true}) | tovalue"},
+	"xmlobj": {"to_xml($o)", "from_xml($o) | tovalue"},
+	"base64": {"to_base64($o)", "from_base64($o)"},
+}
+
+// each x is [options object, value]
+func runOpt(o *hlib.Out, ev *evaluator, name string, xs []any) {
+	d, ok := optDefs[name]
+	if !ok {
+		o.Verdict("BADOP", "law opt:"+name)
+		return
+	}
+	ops := make([]string, len(xs))
+	for i, x := range xs {
+		ops[i] = fmt.Sprintf("law opt:%s %s", name, wireOf(x))
+	}
+	expr := fmt.Sprintf(`. as [$o, $x] | try [$x | %s | %s] catch {__err: (. | tostring)}`, d.to, d.from)
+	res := ev.run(expr, xs)
+	for i := range xs {
+		o.Stat("law_opt", 1)
+		pair := parseWire(strings.Fields(ops[i])[2]).([]any)
+		opts, x := pair[0], pair[1]
+		fail := ""
+		switch r := res[i].(type) {
+		case []any:
+			if len(r) != 1 {
+				fail = fmt.Sprintf("outputs=%d", len(r))
+			} else if !heldEqual(r[0], x) {
+				fail = wireOf(r[0])
+			}
+		case map[string]any:
+			// failing cleanly is allowed
+			o.Stat("law_opt_clean_error", 1)
+		case panicMark:
+			fail = "panic"
+		case timeoutMark:
+			fail = "timeout"
+		default:
+			fail = fmt.Sprintf("?%T", r)
+		}
+		if fail == "" {
+			o.Verdict("OK", ops[i])
+			o.Class(ops[i])
+			continue
+		}
+		if len(fail) > 300 {
+			fail = fail[:300] + "…"
+		}
+		if key := knownOptFailure(name, opts, x); key != "" {
+			o.Verdict("KNOWN", key+" "+ops[i]+" got="+fail)
+		} else {
+			o.Verdict("PROPFAIL", ops[i]+" got="+fail)
+		}
+	}
+}
+
+// the known csv classes, relative to the comment character in force ('#' unless the option names
+// another one; the empty string switches comments off)
+func knownOptFailure(name string, opts, x any) string {
+	if name != "csv" {
+		return knownLawFailure(strings.TrimSuffix(strings.TrimSuffix(name, "arr"), "obj"), x)
+	}
+	om, _ := opts.(map[string]any)
+	comment := "#"
+	if c, ok := om["comment"].(string); ok {
+		comment = ""
+		if c != "" {
+			comment = c[:1]
+		}
+	}
+	if anyString(x, func(s string) bool { return strings.Contains(s, "\r\n") }) {
+		return "csv-crlf-in-field"
+	}
+	rows, _ := x.([]any)
+	for _, row := range rows {
+		r, _ := row.([]any)
+		if len(r) > 0 && comment != "" {
+			if s, _ := r[0].(string); strings.HasPrefix(s, comment) {
+				return "csv-comment-row"
+			}
+		}
+		if len(r) == 1 {
+			if s, _ := r[0].(string); s == "" {
+				return "csv-single-empty-field"
+			}
+		}
+	}
+	return ""
 }
 
 // runLawOp re-runs one law line of a replay file (`[VERDICT [key]] law <name> <wire> [got=…]`)
@@ -764,6 +1026,8 @@ func genLaws(cfg hlib.Config, r *hlib.Rand, o *hlib.Out, ev *evaluator) {
 		runLaw(o, ev, name, batch[name])
 	}
 
+	genHeldAndOpt(cfg, r, o, ev, batch)
+
 	// input immutability of every conversion function: the shaped values, plus values of each
 	// structured serialiser's domain and random JSON values
 	nr := 40
@@ -784,5 +1048,107 @@ func genLaws(cfg hlib.Config, r *hlib.Rand, o *hlib.Out, ev *evaluator) {
 			}
 		}
 		runImmut(o, ev, fn, xs)
+	}
+}
+
+// genHeldAndOpt: held-results laws for every codec and the options dimension of every codec pair
+// that takes options
+func genHeldAndOpt(cfg hlib.Config, r *hlib.Rand, o *hlib.Out, ev *evaluator, batch map[string][]any) {
+	n := 25
+	if cfg.Thorough() {
+		n = 120
+	}
+	pick := func(name string) any {
+		b := batch[name]
+		return parseWire(wireOf(b[r.Intn(len(b))]))
+	}
+	jg := &jsonGen{r: r, intBits: 100}
+	str := func(maxClass int) string {
+		// lengths on both sides of bytes.Buffer's 64-byte small buffer and well beyond
+		return randString(r, []int{0, 1, 3, 17, 63, 64, 65, 200, 1000}[r.Intn(9)], maxClass)
+	}
+	input := func(codec string) any {
+		switch codec {
+		case "latin1":
+			return str(2)
+		case "radix":
+			return jg.integerNonNeg()
+		case "json", "jqlit":
+			return jg.value(r.Range(0, 3))
+		case "yaml":
+			return pick("yaml")
+		case "toml":
+			return pick("toml")
+		case "xml":
+			return pick("xml")
+		case "csv":
+			return pick("csv")
+		case "urlquery":
+			return pick("urlquery")
+		case "hex", "b64std", "b64url", "b64rawstd", "b64rawurl", "md4", "md5", "sha1", "sha256", "sha512", "sha3_256", "urlq", "urlp":
+			if r.Bool() {
+				return string(r.Bytes([]int{0, 1, 2, 3, 31, 64, 65, 300}[r.Intn(8)]))
+			}
+			return str(5)
+		default:
+			return str(5)
+		}
+	}
+	for _, codec := range heldNames() {
+		var xs []any
+		for k := 0; k < n; k++ {
+			m := r.Range(2, 5)
+			a := make([]any, m)
+			for i := range a {
+				a[i] = input(codec)
+			}
+			xs = append(xs, a)
+		}
+		runHeld(o, ev, codec, xs)
+	}
+
+	// ---- options
+	var csvOpts, idxOpts []any
+	for _, c := range []string{";", "|", ":", "x", "§", "é", "→", "😀", "ab", "\t", " ", "\"", "\n", "#", ","} {
+		csvOpts = append(csvOpts, map[string]any{"comma": c})
+	}
+	csvOpts = append(csvOpts, map[string]any{"comment": ""}, map[string]any{"comment": "!"}, map[string]any{"comment": ";", "comma": "|"}, map[string]any{"comma": ";", "comment": "§"}, map[string]any{})
+	for i := 0; i <= 8; i++ {
+		idxOpts = append(idxOpts, map[string]any{"indent": i})
+	}
+	nonEmptyCells := func(t any) bool {
+		return !anyString(t, func(s string) bool { return s == "" })
+	}
+	for k := 0; k < n*4; k++ {
+		op := csvOpts[r.Intn(len(csvOpts))].(map[string]any)
+		t := pick("csv")
+		if c, _ := op["comma"].(string); c == "\t" || c == " " {
+			// a white-space separator: encoding/csv's TrimLeadingSpace swallows the separator in
+			// front of an EMPTY field (reported, see lib/props/C14.json); until that is decided only
+			// tables without empty cells are used with such a separator
+			if !nonEmptyCells(t) {
+				continue
+			}
+		}
+		runOpt(o, ev, "csv", []any{[]any{parseWire(wireOf(op)), t}})
+	}
+	var batchOpt = map[string][]any{}
+	for k := 0; k < n; k++ {
+		io := idxOpts[r.Intn(len(idxOpts))]
+		v := jg.value(r.Range(1, 4))
+		batchOpt["json"] = append(batchOpt["json"], []any{io, v})
+		batchOpt["jq"] = append(batchOpt["jq"], []any{io, parseWire(wireOf(v))})
+		batchOpt["yaml"] = append(batchOpt["yaml"], []any{io, pick("yaml")})
+		batchOpt["toml"] = append(batchOpt["toml"], []any{io, pick("toml")})
+		batchOpt["xmlarr"] = append(batchOpt["xmlarr"], []any{io, pick("xml")})
+		// object form with another attribute prefix on both sides
+		pfx := []string{"@", "_", "attr-", "@@", "-"}[r.Intn(5)]
+		ov := map[string]any{"r": map[string]any{pfx + "k": xmlText(r), "a": []any{xmlText(r), map[string]any{pfx + "x": xmlText(r), "#text": xmlText(r)}}, "b": xmlText(r)}}
+		batchOpt["xmlobj"] = append(batchOpt["xmlobj"], []any{map[string]any{"attribute_prefix": pfx}, ov})
+		enc := []string{"std", "url", "rawstd", "rawurl", "unknown", ""}[r.Intn(6)]
+		batchOpt["base64"] = append(batchOpt["base64"], []any{map[string]any{"encoding": enc}, string(r.Bytes(r.Range(0, 40)))})
+	}
+	for _, name := range []string{"json", "jq", "yaml", "toml", "xmlarr", "xmlobj", "base64"} {
+		runOpt(o, ev, name, batchOpt[name])
 	}
 }
